@@ -2,7 +2,7 @@ PROP = dict(
     code3_is_violation=True,
     properties="Properties/C04.v",
     harness_mods=["Harness/C04.v"],
-    runs=[dict(cmd="c04", quick=900, thorough=30000)],
+    runs=[dict(cmd="c04", quick=750, thorough=30000)],
     trusted_base=[
         "hand-written Gallina mechanism model coq/Exec/CallTree.v of callExFromNative/unloadContext/handleException/"
         "ContractHasTryBlock/dao layers and native caches (Policy, NEO)/storeBlock persist-iff-halt/VM reuse across a block "
